@@ -1758,6 +1758,46 @@ func (m *Model) xattrCarryGo(r *Results, rule, key, pos string, dw *docWrite, x 
 							c.cutEdge(blk, sck)
 						}
 					}
+					// later tests of the same error (`exists := err == nil` ... `if !exists`) say the
+					// same thing as long as the error variable has not been assigned again
+					sameErr := func(v ssa.Value) bool {
+						v, o := stripConv(v), stripConv(other)
+						if v == o {
+							return true
+						}
+						l1, ok1 := v.(*ssa.UnOp)
+						l2, ok2 := o.(*ssa.UnOp)
+						if !ok1 || !ok2 || l1.Op != token.MUL || l2.Op != token.MUL || l1.X != l2.X {
+							return false
+						}
+						al, ok := l1.X.(*ssa.Alloc)
+						if !ok {
+							return false
+						}
+						for _, st := range cellStores(al) {
+							if forwardReachable(sc.Call, st) && forwardReachable(st, l1) && st.Block() != sc.Call.Block() {
+								return false
+							}
+						}
+						return true
+					}
+					for _, iff2 := range allIfs(F) {
+						if iff2 == iff {
+							continue
+						}
+						cd2 := condOf(iff2)
+						eq2, ok := cd2.equalEdge()
+						if !ok {
+							continue
+						}
+						if isNilConst(cd2.Y) && sameErr(cd2.X) || isNilConst(cd2.X) && sameErr(cd2.Y) {
+							for _, sck := range iff2.Block().Succs {
+								if sck != eq2 {
+									c.cutEdge(iff2.Block(), sck)
+								}
+							}
+						}
+					}
 				}
 			}
 		}
